@@ -70,7 +70,8 @@ def call(obj, op, a):
 
 
 def scenario(args):
-    kinds, order, seed = args
+    kinds, order, seed = args[:3]
+    fixed = args[3] if len(args) > 3 else None      # fixed call list for the first block (structured family)
     rng = random.Random(seed)
     s = sim.Sched()
     air = sim.Air(s)
@@ -86,6 +87,8 @@ def scenario(args):
         obj.__enter__()
         ev.append(dict(k="enter", o=o + 1, post=rfapi.state(chip)))
         calls = block_calls(kind, rng, rng.randrange(0, 7))
+        if fixed is not None and not script:
+            calls = list(fixed)
         for (op, a) in calls:
             call(obj, op, a)
         script.append([o, [[op, rfapi.arg_repr(a)] for op, a in calls]])
@@ -110,14 +113,22 @@ def run(chk):
                 for order in itertools.product(range(k), repeat=nb):
                     for rep in range(reps):
                         jobs.append((kinds, order, hash((chk.seed, kinds, order, rep)) & 0x7FFFFFFF))
+    # structured family: the first block of an RF24 runs every pipe / listen / address-length history of length <= 3
+    # (the calls whose cached view is easiest to get wrong), another object intervenes, the RF24 is re-entered
+    from checks.c08 import ALPHA as PIPE_ALPHA
+    structured = []
+    for d in (1, 2, 3):
+        for seq in itertools.product(PIPE_ALPHA, repeat=d):
+            structured.append((("rf24", ("ble", "net", "rf24")[len(structured) % 3]), (0, 1, 0), len(structured), list(seq)))
     if quick:
         rng = random.Random(chk.seed)
         keep = [j for j in jobs if len(j[1]) <= 3] + rng.sample([j for j in jobs if len(j[1]) == 4], 1500)
         jobs = keep
+    jobs = jobs + structured
     with ProcessPoolExecutor(16) as ex:
         traces = list(ex.map(scenario, jobs, chunksize=64))
     for j in jobs:
-        chk.case(j)
+        chk.case(str(j))
     chk.traces += len(traces)
     chk.phase("exec")
     chk.sample(dict(kinds=traces[len(traces) // 2]["kinds"], script=traces[len(traces) // 2]["script"]))
